@@ -301,6 +301,11 @@ PROPS["C04"] = dict(
     technique="TLA+ liveness model of the iteration loops (TLC) + trace validation of call/return events recorded under a watchdog",
 )
 PROPS["C16"]["mc"] = [("MC_BigNat", None), ("MC_BigInt", None), ("MC_BigInt", "MC_BigInt_buggy", "expect-violation")]
+# unbounded (all integers, no MaxV) with Apalache: the representation invariants are inductive; the buggy fast path is not
+PROPS["C16"]["apalache"] = [("MC_BigInt", "CInit", "Init", "IndInv", 0, False),
+                            ("MC_BigInt", "CInitBuggy", "IndInit", "IndInv", 1, True),
+                            ("MC_BigInt", "CInit", "IndInit", "IndInv", 1, False, "thorough")]
+PROPS["C16"]["level_text"] += " For unbounded register values Apalache discharges the same invariants as an inductive invariant (Init => IndInv; IndInv /\\ Next => IndInv' in the thorough tier) and rejects the buggy fast path."
 
 PROPS["C18"] = dict(
     level_text='Conc model-checks all interleavings of the borrow/read/write steps of 3 processes (view-write defect as negative control); 8 goroutines run 160 cases per round on shared Contexts/operands under the Go race detector and every outcome is validated against the call run alone.',
